@@ -437,8 +437,10 @@ func c16Flow(c *Ctx) {
 	// the publishing call inside the walk callback
 	var pubFns = map[*ssa.Function]bool{}
 	for _, fn := range llmFuncs(L) {
-		if len(findCalls(fn, "os.Rename")) > 0 {
-			pubFns[fn] = true
+		for _, rn := range findCalls(fn, "os.Rename") {
+			// the function that creates the temporary file; the rename itself may sit in its last-phase helper
+			root, _, _, _ := publishRoot(L, fn, rn)
+			pubFns[root] = true
 		}
 	}
 	nPub := 0
